@@ -128,6 +128,8 @@ Apply(e, S, it) ==
          THEN LET s == Succ(it.n, it.cur) IN
               Ok(e.d :> Val(it.n, it.cur), {"some"}, [n |-> it.n, cur |-> s.on, ok |-> s.ok])
          ELSE Ok(NoW, {"none"}, it)
+    [] e.op = "iter_count" ->     \* a complete run: 2^(2^n) items (as a set of bit positions), the last one constant one
+         Ok(e.d :> Val(e.n, Dom(e.n)), {[count |-> <<2^e.n>>]}, it)
     [] e.op = "vnext" ->
          LET A == S[e.a]
              s == Succ(A.n, A.on)
